@@ -46,6 +46,8 @@ namespace
                 vt.set_prompt(cfg.prompt);
         }
         igris::sline &line() { return reinterpret_cast<VtermView *>(&vt)->rl.line(); }
+        int linecpy(char *dst, size_t size) { return reinterpret_cast<VtermView *>(&vt)->rl.linecpy(dst, size); }
+        const char *history(int k) { return reinterpret_cast<VtermView *>(&vt)->rl.history_pointer(k); }
         void key(int c) { vt.newdata((int16_t)c); }
         unsigned len() { return (unsigned)line().current_size(); }
         unsigned cursor() { return (unsigned)line().current_size() - line().rightsize(); }
@@ -74,6 +76,7 @@ namespace
         int left() { return sl.left(); }
         int right() { return sl.right(); }
         const char *getline() { return sl.getline(); }
+        bool equal(const char *s) { return sl.equal(s); }
         unsigned len() { return (unsigned)sl.current_size(); }
         unsigned cursor() { return (unsigned)sl.current_size() - sl.rightsize(); }
         const char *data() { return sl.data(); }
@@ -83,6 +86,7 @@ namespace
 VF_SUITE(keys_exhaustive, c15::exhA_count, c15::exhA_run<XTerm>)
 VF_SUITE(keys_exhaustive7, c15::exhB_count, c15::exhB_run<XTerm>)
 VF_SUITE(keys_random, c15::rnd_count, c15::rnd_run<XTerm>)
+VF_SUITE(keys_longline, c15::long_count, c15::long_run<XTerm>)
 VF_SUITE(sline_exhaustive, c15::slexh_count, c15::slexh_run<XSline>)
 VF_SUITE(sline_random, c15::slrnd_count, c15::slrnd_run<XSline>)
 
